@@ -339,6 +339,7 @@ func runC03(r *simkit.Run, c Cfg) {
 	latest0 := sub.Latest(pub)
 
 	// Phase 1: the attack.
+	idOnly := !k.direct && (c.Case >= 0 && k.alt%2 == 1 || c.Case < 0 && tp.Chance(1, 2, "idOnly"))
 	attack = true
 	req0 := len(w.Net.Requests())
 	var res *result
@@ -356,7 +357,15 @@ func runC03(r *simkit.Run, c Cfg) {
 			cl.Close()
 		}()
 	} else {
-		res = run("SyncAdChain", func() (cid.Cid, error) { return sub.Sub.SyncAdChain(bg, pub.AddrInfo()) })
+		target := pub.AddrInfo()
+		if idOnly {
+			// sync by ID alone: the address remembered from the earlier
+			// sync is used, and the per-publisher sync client is rebuilt
+			target = peer.AddrInfo{ID: pub.Ident.ID}
+			sub.Sub.RemoveHandler(pub.Ident.ID)
+			r.Probe("id-only-sync-after-handler-removal")
+		}
+		res = run("SyncAdChain", func() (cid.Cid, error) { return sub.Sub.SyncAdChain(bg, target) })
 	}
 	attack = false
 	if origSeen == nil {
